@@ -925,8 +925,8 @@ class randint(Dist):
 
     def ppf(self, rands):
         p = self._pars
-        rvs = rands * (p.high + 1 - p.low) + p.low
-        rvs = rvs.astype(self.dtype)
+        rvs = rands * (p.high - p.low) + p.low # Half-open interval [low, high), as for the scalar path
+        rvs = np.floor(rvs).astype(p.dtype)
         return rvs
 
     def preprocess_timepar(self, key, timepar):
